@@ -149,8 +149,21 @@ func tail(s []string, n int) []string {
 
 type PartFunc func(c *Ctx)
 
+var registry = map[string]PartFunc{}
+
+// Register makes a part known to Main; harness files call it from init().
+func Register(name string, f PartFunc) {
+	if _, dup := registry[name]; dup {
+		panic("drv: duplicate part " + name)
+	}
+	registry[name] = f
+}
+
 // Main dispatches os.Args[1] to a part and writes its result file.
 func Main(parts map[string]PartFunc) {
+	if parts == nil {
+		parts = registry
+	}
 	if len(os.Args) < 2 {
 		names := make([]string, 0, len(parts))
 		for n := range parts {
